@@ -470,7 +470,7 @@ struct App {
     ureceivers: Vec<UnclaimedReceiver>,
     senders: Vec<Sender>,
     receivers: Vec<Receiver>,
-    listeners: Vec<BusListener>,
+    listeners: Vec<Lsn>,
     /// results of finished operations, for the statistics
     results: Vec<(String, String)>,
     fails: Vec<String>,
@@ -478,6 +478,24 @@ struct App {
     app_panics: Vec<String>,
     /// scenario with a real broker and real services: results of calls are checked
     check_calls: bool,
+}
+
+/// a bus listener together with every filter it has ever been given: whatever it yields must match one of them
+/// (the client matches an event against the listener's filters when it arrives; filters are only ever a subset of these)
+struct Lsn {
+    l: BusListener,
+    ever: Vec<BusListenerFilter>,
+}
+impl std::ops::Deref for Lsn {
+    type Target = BusListener;
+    fn deref(&self) -> &BusListener {
+        &self.l
+    }
+}
+impl std::ops::DerefMut for Lsn {
+    fn deref_mut(&mut self) -> &mut BusListener {
+        &mut self.l
+    }
 }
 
 /// a channel end taken from the pool: it goes back unless the claim came to a decision (an application that
@@ -1144,11 +1162,17 @@ fn start_op_inner(op: Op, cid: usize, app: &AppRc, shared: &SharedRc, spawner: &
             let r = BusListener::new(&handle).await;
             record(&a, &nm, res_name(&r));
             if let Ok(l) = r {
-                a.borrow_mut().listeners.push(l);
+                a.borrow_mut().listeners.push(Lsn { l, ever: vec![] });
             }
         })),
         Op::ListenerFilter(i, k) => {
             let mut a = app.borrow_mut();
+            if k <= 2 {
+                let f = filter_of(k);
+                if !a.listeners[i].ever.contains(&f) {
+                    a.listeners[i].ever.push(f);
+                }
+            }
             let r = match k {
                 0..=2 => a.listeners[i].add_filter(filter_of(k)),
                 3 => a.listeners[i].remove_filter(filter_of(0)),
@@ -1173,7 +1197,8 @@ fn start_op_inner(op: Op, cid: usize, app: &AppRc, shared: &SharedRc, spawner: &
             }))
         }
         Op::ListenerDestroy(i) => {
-            let mut l = app.borrow_mut().listeners.remove(i);
+            let l = app.borrow_mut().listeners.remove(i);
+            let mut l = l.l;
             spawn(Box::pin(async move {
                 let r = l.destroy().await;
                 record(&a, &nm, res_name(&r));
@@ -1189,8 +1214,14 @@ fn start_op_inner(op: Op, cid: usize, app: &AppRc, shared: &SharedRc, spawner: &
             let mut cx = Context::from_waker(&waker);
             let mut k = 0;
             let mut app = app.borrow_mut();
-            while let Poll::Ready(Some(_)) = app.listeners[i].poll_next_event(&mut cx) {
+            let check = app.check_calls;
+            while let Poll::Ready(Some(ev)) = app.listeners[i].poll_next_event(&mut cx) {
                 k += 1;
+                // with a real broker: a listener yields only what one of its filters (ever) matches
+                if check && !app.listeners[i].ever.iter().any(|f| f.matches_event(ev)) {
+                    let what = format!("a bus listener yielded {:?}, which none of the filters it ever had matches ({:?})", ev, app.listeners[i].ever);
+                    app.fails.push(format!("C10 {}", what));
+                }
             }
             app.results.push((nm, format!("{}", k.min(3))));
         }
@@ -2144,6 +2175,49 @@ fn scenario_b(out: &mut Out, seed: u64, with_fault: bool) {
                 }
             }
         }
+        // likewise for the bus listeners: some get a filter and are started, then the bus moves
+        for c in 0..n {
+            let nl = apps[c].borrow().listeners.len().min(3);
+            if apps[c].borrow().handle.is_none() {
+                continue;
+            }
+            for i in 0..nl {
+                for op in [Op::ListenerFilter(i, rng.below(3) as u8), Op::ListenerStart(i.min(apps[c].borrow().listeners.len().saturating_sub(1)), 1 + rng.below(2) as u8)] {
+                    if i >= apps[c].borrow().listeners.len() {
+                        break;
+                    }
+                    trace.push(format!("probe-round c{} {:?}", c, op));
+                    start_op(op, c, &apps[c], &shared, &ex.spawner.clone());
+                    if !ex.settle(&mut rng, true) {
+                        out.fail("C06", "the executor did not become quiescent", &ctx(&trace));
+                        return;
+                    }
+                }
+            }
+        }
+        for c in 0..n {
+            if apps[c].borrow().handle.is_none() {
+                continue;
+            }
+            for k in 0..3 {
+                // an object goes (if the client has one), then objects come: the listeners have something to report
+                let nobj = apps[c].borrow().objects.len();
+                let op = if k == 0 {
+                    if nobj == 0 {
+                        continue;
+                    }
+                    Op::DestroyObject(rng.below(nobj as u64) as usize)
+                } else {
+                    Op::CreateObject(rng.below(4))
+                };
+                trace.push(format!("probe-round c{} {:?}", c, op));
+                start_op(op, c, &apps[c], &shared, &ex.spawner.clone());
+                if !ex.settle(&mut rng, true) {
+                    out.fail("C06", "the executor did not become quiescent", &ctx(&trace));
+                    return;
+                }
+            }
+        }
         let mut probes: Vec<(ServiceCookie, u32, u32)> = vec![];
         for app in apps.iter() {
             let app = app.borrow();
@@ -2204,6 +2278,30 @@ fn scenario_b(out: &mut Out, seed: u64, with_fault: bool) {
                     if wanted {
                         out.count("B.probe-events-delivered");
                     }
+                }
+            }
+        }
+    }
+    // whatever the bus listeners have collected by now: each event matches a filter its listener has had
+    if !with_fault {
+        let waker = Waker::noop();
+        let mut cx = Context::from_waker(&waker);
+        for (ci, app) in apps.iter().enumerate() {
+            if !alive(ci, &results) {
+                continue;
+            }
+            let mut app = app.borrow_mut();
+            for l in app.listeners.iter_mut() {
+                let mut bad: Option<String> = None;
+                while let Poll::Ready(Some(ev)) = l.l.poll_next_event(&mut cx) {
+                    out.count("B.listener-events-checked");
+                    if !l.ever.iter().any(|f| f.matches_event(ev)) && bad.is_none() {
+                        bad = Some(format!("a bus listener yielded {:?}, which none of the filters it ever had matches ({:?})", ev, l.ever));
+                    }
+                }
+                if let Some(what) = bad {
+                    out.fail("C06", &format!("client {}: {}", ci, what), &ctx(&trace));
+                    out.fail("C10", &format!("client {}: {}", ci, what), &ctx(&trace));
                 }
             }
         }
@@ -2363,6 +2461,10 @@ fn scenario_b(out: &mut Out, seed: u64, with_fault: bool) {
     for (i, app) in apps.iter().enumerate() {
         for f in app.borrow().fails.iter() {
             out.fail("C06", &format!("client {}: {}", i, f), &ctx(&trace));
+            // the same observation under the property about bus listeners
+            if let Some(rest) = f.strip_prefix("C10 ") {
+                out.fail("C10", &format!("client {}: {}", i, rest), &ctx(&trace));
+            }
         }
         for f in app.borrow().app_panics.iter() {
             out.fail("C06", &format!("client {}: {}", i, f), &ctx(&trace));
